@@ -23,6 +23,7 @@ type Stmt struct {
 	Arrow  string   `json:"arrow,omitempty"` // -> <- <-> --
 	Index  int      `json:"index,omitempty"`
 	Abs    bool     `json:"abs,omitempty"`   // conn/connref: written at root with absolute paths instead of inside Scope
+	ScopeAlt []string `json:"scope_alt,omitempty"` // conn/connref with Abs: another spelling (letter case) of Scope, used for the destination side
 	Under  bool     `json:"under,omitempty"` // conn: written inside a child map with `_.` prefixes
 	Pattern string  `json:"pattern,omitempty"` // glob: one segment containing '*', or "**"
 }
@@ -94,6 +95,9 @@ func (s Stmt) print() string {
 		body = key(full(s.Path)) + ": null"
 	case "conn":
 		src, dst := full(s.Src), full(s.Dst)
+		if s.Abs && len(s.ScopeAlt) == len(s.Scope) && len(s.Scope) > 0 {
+			dst = append(append([]string{}, s.ScopeAlt...), s.Dst...)
+		}
 		if s.Under && len(s.Scope) > 0 && !s.Abs {
 			// written one level deeper, climbing back with underscores
 			return key(s.Scope) + ": {\n  zz_inner: {\n    _." + key(src) + " " + s.Arrow + " _." + key(dst) + labelSuffix(s.Value) + "\n  }\n}\n"
@@ -111,8 +115,13 @@ func (s Stmt) print() string {
 			pre = key(s.Scope) + "."
 		}
 		body = pre + "(* -> *)[*]." + s.Key + ": " + val(s.Value)
+	case "globconn":
+		body = s.Src[0] + " -> " + s.Dst[0]
 	case "connref":
 		src, dst := full(s.Src), full(s.Dst)
+		if s.Abs && len(s.ScopeAlt) == len(s.Scope) && len(s.Scope) > 0 {
+			dst = append(append([]string{}, s.ScopeAlt...), s.Dst...)
+		}
 		body = fmt.Sprintf("(%s %s %s)[%d]", key(src), s.Arrow, key(dst), s.Index)
 		if s.Key != "" {
 			body += "." + s.Key
@@ -157,6 +166,10 @@ type rGlob struct {
 	Key     string
 	Value   string
 	EdgeAll bool // (* -> *)[*].<key>: value, in Scope
+	// Conn: `SrcPat -> DstPat` in Scope: a connection from every matching direct child of Scope
+	// to every other matching direct child, now and whenever such a child is created later
+	Conn           bool
+	SrcPat, DstPat string
 }
 
 type rBoard struct {
@@ -293,21 +306,14 @@ func (b *rBoard) Apply(s Stmt) {
 	case "edgeglob":
 		b.seq--
 		b.DeclareGlob(&rGlob{Scope: scope, Key: s.Key, Value: *s.Value, EdgeAll: true})
+	case "globconn":
+		b.seq--
+		b.DeclareConnGlob(scope, s.Src[0], s.Dst[0])
 	case "conn":
 		src := b.ensure(scope, s.Src)
 		dst := b.ensure(scope, s.Dst)
 		sa, da := arrows(s.Arrow)
-		e := &rEdge{Src: src, Dst: dst, SrcArrow: sa, DstArrow: da, Attrs: map[string]string{}}
-		if s.Value != nil {
-			v := *s.Value
-			e.Label = &v
-		}
-		b.Edges = append(b.Edges, e)
-		for _, g := range b.Globs {
-			if g.EdgeAll {
-				b.applyEdgeGlob(g, e)
-			}
-		}
+		b.addEdge(src, dst, sa, da, s.Value)
 	case "connref":
 		src := b.lookup(scope, s.Src)
 		dst := b.lookup(scope, s.Dst)
@@ -490,8 +496,62 @@ func (b *rBoard) applyGlob(g *rGlob, o *rObj) {
 
 func (b *rBoard) globsOnCreate(o *rObj) {
 	for _, g := range b.Globs {
+		if g.Conn {
+			if o.Parent != g.Scope {
+				continue
+			}
+			for _, x := range o.Parent.Children {
+				if x == o {
+					continue
+				}
+				if matchPattern(o.Name, g.SrcPat, true) && matchPattern(x.Name, g.DstPat, true) {
+					b.addEdge(o, x, false, true, nil)
+				}
+				if matchPattern(x.Name, g.SrcPat, true) && matchPattern(o.Name, g.DstPat, true) {
+					b.addEdge(x, o, false, true, nil)
+				}
+			}
+			continue
+		}
 		if !g.EdgeAll {
 			b.applyGlob(g, o)
+		}
+	}
+}
+
+// addEdge appends a connection and lets the connection globs in force act on it.
+func (b *rBoard) addEdge(src, dst *rObj, sa, da bool, label *string) *rEdge {
+	e := &rEdge{Src: src, Dst: dst, SrcArrow: sa, DstArrow: da, Attrs: map[string]string{}}
+	if label != nil {
+		v := *label
+		e.Label = &v
+	}
+	b.Edges = append(b.Edges, e)
+	for _, g := range b.Globs {
+		if g.EdgeAll {
+			b.applyEdgeGlob(g, e)
+		}
+	}
+	return e
+}
+
+// DeclareConnGlob: `P -> Q` written in scope. A pattern without a star names one object, which
+// the statement creates like any connection end.
+func (b *rBoard) DeclareConnGlob(scope *rObj, srcPat, dstPat string) {
+	if !strings.Contains(srcPat, "*") {
+		b.ensure(scope, []string{srcPat})
+	}
+	if !strings.Contains(dstPat, "*") {
+		b.ensure(scope, []string{dstPat})
+	}
+	g := &rGlob{Scope: scope, Conn: true, SrcPat: srcPat, DstPat: dstPat}
+	b.Globs = append(b.Globs, g)
+	kids := append([]*rObj{}, scope.Children...)
+	for _, x := range kids {
+		for _, y := range kids {
+			if x != y && matchPattern(x.Name, srcPat, true) && matchPattern(y.Name, dstPat, true) {
+				b.addEdge(x, y, false, true, nil)
+			}
 		}
 	}
 }
